@@ -696,7 +696,9 @@ ErrSid(f, x) == IF "sid" \in DOMAIN x THEN x.sid ELSE f.sid
 RecvFrame(ep, f) ==
   LET r == Dispatch(ep, f) IN
   IF r.x.c = "StreamClosedError"
-  THEN IF ByReset(r.ep, f.sid) THEN RR(Emit(r.ep, <<FRst(f.sid, 5)>>), OK, r.ev) ELSE RR(r.ep, SCE, <<>>)
+  THEN IF ByReset(r.ep, f.sid)
+       THEN RR(Emit(IF r.ep.conn = "CLOSED" THEN Mark(r.ep, "rst_on_closed_connection") ELSE r.ep, <<FRst(f.sid, 5)>>), OK, r.ev)
+       ELSE RR(r.ep, SCE, <<>>)
   ELSE IF r.x.c = "TooLow"
   THEN LET sid == ErrSid(f, r.x) IN
        IF ByReset(r.ep, sid) THEN RR(Emit(r.ep, <<FRst(sid, 5)>>), OK, <<>>)
